@@ -187,6 +187,7 @@ impl io::Write for MockStream {
         let allowed = sh.budget.unwrap_or(usize::MAX).min(sh.max_write.max(1));
         if allowed == 0 || sh.budget == Some(0) {
             write_blocked(&sh, &self.readiness);
+            amiquip::verif::pass_log::note("w wb".into());
             return Err(io::ErrorKind::WouldBlock.into());
         }
         let n = buf.len().min(allowed);
@@ -197,6 +198,7 @@ impl io::Write for MockStream {
         let total = sh.outbound.len();
         sh.write_log.push((Instant::now(), total));
         cv.notify_all();
+        amiquip::verif::pass_log::note(format!("w {}", n));
         Ok(n)
     }
 
@@ -207,6 +209,7 @@ impl io::Write for MockStream {
 
 impl Evented for MockStream {
     fn register(&self, poll: &Poll, token: Token, interest: Ready, opts: PollOpt) -> io::Result<()> {
+        amiquip::verif::pass_log::note(format!("reg {}", format!("{}{}", if interest.is_readable() { "r" } else { "" }, if interest.is_writable() { "w" } else { "" })));
         self.registration.register(poll, token, interest, opts)
     }
     fn reregister(&self, poll: &Poll, token: Token, interest: Ready, opts: PollOpt) -> io::Result<()> {
@@ -222,6 +225,7 @@ impl Evented for MockStream {
                 after = park;
             }
         }
+        amiquip::verif::pass_log::note(format!("rereg {}", format!("{}{}", if interest.is_readable() { "r" } else { "" }, if interest.is_writable() { "w" } else { "" })));
         let r = self.registration.reregister(poll, token, interest, opts);
         if after > 0 {
             std::thread::sleep(Duration::from_millis(after));
